@@ -38,6 +38,7 @@ type Graph struct {
 	InScope func(*ssa.Function) bool
 	cg      *callgraph.Graph
 	funcs   []*ssa.Function
+	derefs  []deref // stores and loads through pointer values, resolved after all edges are known
 	// FlagRead recognises c.String/Int/Bool/IsSet("name") calls: returns a source label.
 	FlagRead func(call *ssa.Call) ([]string, bool)
 	// ExternalWrites: an external call that fills a structure (gcfg.ReadInto): returns the named struct
@@ -107,6 +108,45 @@ func (g *Graph) Populate() {
 	for _, fn := range g.funcs {
 		g.addFunc(fn)
 	}
+	// Pointers to fields that travel as values (a table row holding &cfg.Field, a helper taking *string):
+	// a store or load through such a pointer reaches every field whose address can flow into it.
+	for _, d := range g.derefs {
+		for _, fieldN := range g.addrSources(d.ptr) {
+			if d.store {
+				g.add(fieldN, d.val, false, "store-through-pointer")
+			} else {
+				g.add(d.val, fieldN, false, "load-through-pointer")
+			}
+		}
+	}
+}
+
+type deref struct {
+	ptr, val Node
+	store    bool
+}
+
+// addrSources: the field nodes whose address can flow into the pointer value n.
+func (g *Graph) addrSources(n Node) []Node {
+	seen := map[Node]bool{}
+	work := []Node{n}
+	var out []Node
+	for len(work) > 0 {
+		cur := work[len(work)-1]
+		work = work[:len(work)-1]
+		if seen[cur] {
+			continue
+		}
+		seen[cur] = true
+		if strings.HasPrefix(string(cur), "addr:") {
+			out = append(out, Node(strings.TrimPrefix(string(cur), "addr:")))
+			continue
+		}
+		for _, e := range g.in[cur] {
+			work = append(work, e.from)
+		}
+	}
+	return out
 }
 
 func (g *Graph) callees(fn *ssa.Function, ci ssa.CallInstruction) []*ssa.Function {
@@ -147,6 +187,17 @@ func (g *Graph) addrNode(a ssa.Value) (Node, bool) {
 	return "", false
 }
 
+// isPointerValue: the address operand is a pointer that was computed elsewhere
+// (loaded, passed, returned), not an address formed on the spot.
+func isPointerValue(a ssa.Value) bool {
+	switch a.(type) {
+	case *ssa.UnOp, *ssa.Phi, *ssa.Call, *ssa.Extract, *ssa.Parameter, *ssa.Field, *ssa.Lookup, *ssa.FreeVar:
+		_, isPtr := a.Type().Underlying().(*types.Pointer)
+		return isPtr
+	}
+	return false
+}
+
 func (g *Graph) addFunc(fn *ssa.Function) {
 	for _, b := range fn.Blocks {
 		for _, in := range b.Instrs {
@@ -154,12 +205,18 @@ func (g *Graph) addFunc(fn *ssa.Function) {
 			case *ssa.Store:
 				if n, ok := g.addrNode(in.Addr); ok {
 					g.add(n, valNode(in.Val), false, "store")
+					if isPointerValue(in.Addr) {
+						g.derefs = append(g.derefs, deref{valNode(in.Addr), valNode(in.Val), true})
+					}
 				}
 			case *ssa.UnOp:
 				switch in.Op {
 				case token.MUL:
 					if n, ok := g.addrNode(in.X); ok {
 						g.add(valNode(in), n, false, "load")
+						if isPointerValue(in.X) {
+							g.derefs = append(g.derefs, deref{valNode(in.X), valNode(in), false})
+						}
 					}
 					// a struct loaded as a whole carries its type's fields implicitly (field-based)
 				default:
@@ -170,7 +227,10 @@ func (g *Graph) addFunc(fn *ssa.Function) {
 					g.add(valNode(in), Node("f:"+in.X.Type().String()+"."+st.Field(in.Field).Name()), false, "field")
 				}
 				g.add(valNode(in), valNode(in.X), false, "field-of-value")
-			case *ssa.FieldAddr, *ssa.IndexAddr:
+			case *ssa.FieldAddr:
+				// the address of a field, when it travels as a value, names that field
+				g.add(valNode(in), Node("addr:"+string(fieldNode(in.X.Type(), in.Field))), false, "address-of")
+			case *ssa.IndexAddr:
 				// addresses carry no value flow themselves
 			case *ssa.Index:
 				g.add(valNode(in), valNode(in.X), false, "index")
